@@ -36,7 +36,7 @@ func init() {
 // Universe is prefix-free as a whole and forces the path-wise vs string-wise collision a / ab.
 var Universe = []string{"a/x", "a/y", "ab", "b/c/d"}
 
-var contents = []string{"", "1", strings.Repeat("0123456789abcdef", 70*1024/16)}
+var contents = []string{"", "1", bigContent(70 * 1024)}
 
 var absent = []string{"a", "a/z", "zz", "b/c"}
 
@@ -733,4 +733,14 @@ func derived(r *evid.Run, nodes any, scratch string) {
 			}
 		}
 	}
+}
+
+// bigContent returns n bytes that are position-encoded (no period), so that a chunk written twice,
+// dropped or reordered changes the content.
+func bigContent(n int) string {
+	var b strings.Builder
+	for i := 0; b.Len() < n; i++ {
+		fmt.Fprintf(&b, "%07d|", i)
+	}
+	return b.String()[:n]
 }
